@@ -82,6 +82,9 @@ def run(ctx):
         raise AnalysisError(f"C18: state fields no longer found in VBSClusteringManager.__init__: {sorted(missing)}")
     reach = M.reachable()
     ctx.extra["abstract_states"] = len(reach)
+    ctx.extra["states"] = len(reach)
+    ctx.extra["transitions"] = len(M.transitions)
+    ctx.extra["exhaustive"] = True      # the reachable abstract set is computed completely (least fixpoint reached)
     ctx.extra["abstract_transitions"] = len(M.transitions)
     ctx.extra["tracked_fields"] = sorted(M.fields)
     ctx.extra["events"] = [m.name for m in M.public_methods()]
